@@ -59,6 +59,12 @@ def call_floor(db: D.DBuilt, names, ns, via: str):
         try:
             if via == 'accessor':
                 return db.convention().ocean_floor(), None
+            if via == 'function-iter':
+                # the arguments are declared Iterable: one-shot iterators are as good as lists
+                return E.ocean_floor(db.ds, iter(list(names)), non_spatial_variables=(n for n in list(ns))), None
+            if via == 'function-da':
+                # ... and a coordinate may be named by the data array itself
+                return E.ocean_floor(db.ds, [db.ds[n] for n in names], non_spatial_variables=[db.ds[n] for n in ns]), None
             return E.ocean_floor(db.ds, list(names), non_spatial_variables=list(ns)), None
         except Exception as e:  # noqa
             return None, f'{type(e).__name__}: {e}'
@@ -412,7 +418,7 @@ def run(ctx) -> None:
         db = D.build(recipe)
         names = D.discovery(db)
         got = [str(c.name) for c in db.convention().depth_coordinates]
-        via = 'accessor' if (i % 2 == 0 and got == names) else 'function'
+        via = 'accessor' if (i % 2 == 0 and got == names) else ['function', 'function-iter', 'function-da'][(i // 2) % 3]
         cfg = tuple(sorted((c['name'], c.get('positive'), c.get('bounds'), tuple(c['values']))
                            for ax in recipe['depth']['axes'] for c in ax['coords']))
         one(db, names, [db.time_name], via, 'random', True, ('rnd', conv, cfg, i))
